@@ -54,7 +54,7 @@ func (cfg *Config) GetCertificateWithContext(ctx context.Context, clientHello *t
 	if err := cfg.emit(ctx, "tls_get_certificate", map[string]any{"client_hello": clientHelloWithoutConn(clientHello)}); err != nil {
 		cfg.Logger.Error("TLS handshake aborted by event handler",
 			zap.String("server_name", clientHello.ServerName),
-			zap.String("remote", clientHello.Conn.RemoteAddr().String()),
+			zap.String("remote", remoteAddr(clientHello)),
 			zap.Error(err))
 		return nil, fmt.Errorf("handshake aborted by event handler: %w", err)
 	}
@@ -76,7 +76,7 @@ func (cfg *Config) GetCertificateWithContext(ctx context.Context, clientHello *t
 		challengeCert, distributed, err := cfg.getTLSALPNChallengeCert(clientHello)
 		if err != nil {
 			cfg.Logger.Error("tls-alpn challenge",
-				zap.String("remote_addr", clientHello.Conn.RemoteAddr().String()),
+				zap.String("remote_addr", remoteAddr(clientHello)),
 				zap.String("server_name", clientHello.ServerName),
 				zap.Error(err))
 			return nil, err
@@ -84,7 +84,7 @@ func (cfg *Config) GetCertificateWithContext(ctx context.Context, clientHello *t
 		cfg.Logger.Info("served key authentication certificate",
 			zap.String("server_name", clientHello.ServerName),
 			zap.String("challenge", "tls-alpn-01"),
-			zap.String("remote", clientHello.Conn.RemoteAddr().String()),
+			zap.String("remote", remoteAddr(clientHello)),
 			zap.Bool("distributed", distributed))
 		return challengeCert, nil
 	}
@@ -406,7 +406,7 @@ func (cfg *Config) getCertDuringHandshake(ctx context.Context, hello *tls.Client
 
 	logger.Debug("no certificate matching TLS ClientHello",
 		zap.String("server_name", hello.ServerName),
-		zap.String("remote", hello.Conn.RemoteAddr().String()),
+		zap.String("remote", remoteAddr(hello)),
 		zap.String("identifier", name),
 		zap.Uint16s("cipher_suites", hello.CipherSuites),
 		zap.Float64("cert_cache_fill", float64(cacheSize)/cacheCapacity), // may be approximate! because we are not within the lock
@@ -976,6 +976,16 @@ func logWithRemote(l *zap.Logger, hello *tls.ClientHelloInfo) *zap.Logger {
 		port = ""
 	}
 	return l.With(zap.String("remote_ip", ip), zap.String("remote_port", port))
+}
+
+// remoteAddr returns the remote address of the connection hello arrived on,
+// or the empty string if hello has no connection (for example, a ClientHelloInfo
+// constructed by the caller rather than by crypto/tls).
+func remoteAddr(hello *tls.ClientHelloInfo) string {
+	if hello == nil || hello.Conn == nil {
+		return ""
+	}
+	return hello.Conn.RemoteAddr().String()
 }
 
 // localIPFromConn returns the host portion of c's local address
